@@ -61,6 +61,14 @@ def labels_for(style, n):
     return base[:n]
 
 
+def node_form(form, node):
+    """'alt' mixes forms inside one parameter set: odd nodes sum, even nodes idx (so that one expression can be
+    evaluated successfully before another one of the same update fails)"""
+    if form == "alt":
+        return "sum" if node % 2 == 1 else "idx"
+    return form
+
+
 def expression(form, refs, labels):
     r = [f"${labels[j]}" for j in refs]
     if form == "sum":
@@ -116,7 +124,7 @@ def reference_values(graph, n, form, leaf_values):
     vals = dict(leaf_values)
     for u in topo(graph, n):
         if graph[u]:
-            vals[u] = ref_eval(form, [vals[j] for j in graph[u]])
+            vals[u] = ref_eval(node_form(form, u), [vals[j] for j in graph[u]])
     return vals
 
 
@@ -149,7 +157,7 @@ def build_parameters(case, route, tmpdir=None):
     specs = []
     for i in range(n):
         if graph[i]:
-            specs.append({"label": labels[i], "expression": expression(form, graph[i], labels)})
+            specs.append({"label": labels[i], "expression": expression(node_form(form, i), graph[i], labels)})
         else:
             s = {"label": labels[i], "value": leaf_initial(i)}
             if i == nn:
@@ -477,7 +485,7 @@ def run(run: core.Run):
     for n in range(1, hist_n + 1):
         for g in all_dags(range(n)):
             gk = graph_key(g, n)
-            forms = ["sum", "prod", "mix", "idx"] if n <= 3 or not quick else ["sum", "idx"]
+            forms = ["sum", "prod", "mix", "idx", "alt"] if n <= 3 or not quick else ["sum", "idx", "alt"]
             for form in forms:
                 for style in ("flat", "nested"):
                     if n == 4 and style == "nested" and form != "sum":
